@@ -107,7 +107,7 @@ var snapSelect = map[string][]string{
 		fSymtab + "#SymbolTable.AddTokenTerminal", fSymtab + "#SymbolTable.Terminals"}),
 	"C08": {fGolang + "#generator.generateLexer", fGolang + "#groupDFAStates", fGolang + "#formatInts", fGolang + "#formatRunes", fGolang + "#generator.renderTemplate",
 		fGolang + "#generator.prepare", fGolang + "#generator.generateCore", fGolang + "#decl:*", tDir + "*"},
-	"C09": {fReP + "#*", fReIn + "#*", fNfaP + "#Parse", fReAst + "#Parse", fReAstP + "#*"},
+	"C09": {fReP + "#*", fReIn + "#*", fNfaP + "#*", fReAst + "#Parse", fReAstP + "#*"},
 	"C10": {fReAst + "#*", fReAstP + "#*"},
 	"C11": {fAstP + "#*", fParser + "#Parser.ParseAndEvaluate"},
 	"C12": cat(cases(fSpecP, "Parse", rng(12, 18)...), []string{fSpecP + "#Parse/frame", fSymtab + "#SymbolTable.Precedences", fSymtab + "#SymbolTable.AddPrecedence"}),
